@@ -13,7 +13,7 @@ structure HookRec (hook : PModel → M Unit) (H : List Nat → List Var → Fron
   mono : ∀ vals keys m s, H vals keys s.fe → H vals keys (hook m s).2.fe
 
 theorem HookRec.toOk {hook : PModel → M Unit} {H : List Nat → List Var → Frontend → Prop} (h : HookRec hook H)
-    (A : List ZCon) : HookOk hook A (fun _ => True) := ⟨h.frame, fun _ _ _ _ => trivial⟩
+    (A : List ZCon) : HookOk hook A (fun _ => True) := ⟨h.frame, fun _ _ _ _ _ => trivial⟩
 
 /-- the answer of the oracle behind a `sat` outcome of `z3_solver_sat` -/
 theorem z3Check_sat {E : Env} {r : Nat} {asm : List ZCon} {s s' : St} {vals : List Nat} {keys : List Var}
